@@ -402,3 +402,22 @@ def bad_option_programs():
             out.append(("options {\n    LittleEndian = %s;\n    %s = %s;\n}\n\nroot packet P {\n    char[4] a,\n    repeat u8 b,\n    string c,\n}\n"
                         % ("true", k, v) if k != "LittleEndian" else "options {\n    ArrayPrefixLenType = u8;\n    %s = %s;\n}\n\nroot packet P {\n    char[4] a,\n}\n" % (k, v), 3))
     return out
+
+
+# LENGTHS: a token may be as long as the author likes - keys, identifiers, doc strings, numbers, option values, comments
+def _long_probes():
+    out = []
+    for n in (40, 97, 120, 300, 5000):
+        k = "K" * n
+        out.append(("long/string-key-in-list/%d" % n, 'packet P {\n    string kind,\n    match kind as body {\n        ["%s", "B"] : Q,\n        ["A", 1, "%sx", 2, 3, 4] : Q,\n    },\n}\npacket Q {\n    u8 x,\n}\n' % (k, k)))
+        out.append(("long/string-key-single/%d" % n, 'root packet P {\n    string kind,\n    match kind as body {\n        "%s" : Q,\n    },\n}\npacket Q {\n    u8 x,\n}\n' % k))
+        out.append(("long/identifier/%d" % n, "root packet P {\n    u8 %s,\n    F%s {\n        u8 a,\n    },\n}\n" % ("f" * n, "g" * n)))
+        out.append(("long/doc/%d" % n, "MetaData M {\n    u8 A `%s`,\n}\nroot packet P {\n    A,\n    u16 b `%s`,\n}\n" % ("d" * n, "e " * n)))
+        out.append(("long/digits/%d" % n, "root packet P {\n    u8 k,\n    @tag(%s)\n    u8 t,\n    match k as m {\n        %s : Q,\n        [1, %s] : Q,\n    },\n}\npacket Q {\n}\n" % ("9" * n, "7" * n, "8" * n)))
+        out.append(("long/option-value/%d" % n, 'options {\n    JavaPackage = "%s";\n    GoPackage = "%s";\n}\nroot packet P {\n    u8 a,\n}\n' % (".".join(["p"] * n), "g" * n)))
+        out.append(("long/comment/%d" % n, "// %s\nroot packet P { // %s\n    u8 a, // %s\n}\n" % ("c" * n, "c" * n, "c " * n)))
+        out.append(("long/key-list-many/%d" % n, "root packet P {\n    u32 k,\n    match k as m {\n        [%s] : Q,\n    },\n}\npacket Q {\n}\n" % ", ".join(str(i) for i in range(1, min(n, 400) + 1))))
+    return out
+
+
+CRASH_PROBES += _long_probes()
